@@ -186,6 +186,9 @@ func printResult(r *FnResult, verbose bool) {
 		}
 	}
 	fmt.Printf("== %s%s: %d obligations, %d not discharged, %d paths (%d return, %d panic), %.2fs, %d solver checks\n", r.Fn, ifs(r.Shape != "", " ["+r.Shape+"]", ""), len(r.Obligs), nf, r.Paths, r.RetPaths, r.ExcPaths, r.Secs, r.Checks)
+	if verbose {
+		fmt.Printf("   solver time: %v\n", r.TimeBy)
+	}
 	for _, e := range r.Errors {
 		fmt.Println("   ERROR:", e)
 	}
@@ -206,7 +209,7 @@ func printResult(r *FnResult, verbose bool) {
 				}
 			}
 		} else if verbose {
-			fmt.Printf("   ok   %s (inst %d) %v\n", o.Name, o.Inst, o.By)
+			fmt.Printf("   ok   %s (inst %d) %v %.2fs\n", o.Name, o.Inst, o.By, o.Secs)
 		}
 	}
 }
